@@ -62,7 +62,7 @@ func (e *Engine) Generate(prop, tier string, seed uint64, run int) *sim.Plan {
 		for i := 0; i < n; i++ {
 			id++
 			st := sim.Step{Id: id, R: w, B: r.Intn(8), N: r.Intn(16)}
-			ops := []string{"comment", "comment", "title", "status", "label", "meta", "commit", "commit", "commit-as-needed", "snapshot", "snapshot", "new", "query", "allids", "labels", "excerpt", "resolve-prefix", "query-nil"}
+			ops := []string{"comment", "comment", "title", "status", "label", "meta", "commit", "commit", "commit-as-needed", "snapshot", "snapshot", "new", "query", "allids", "labels", "excerpt", "resolve-prefix", "query-nil", "excerpt-prefix", "excerpt-prefix", "ident-lookups", "create-metadata", "resolve-comment"}
 			st.Op = ops[r.Intn(len(ops))]
 			st.S = fmt.Sprintf("w%d-%d", w, i)
 			if r.Chance(0.7) {
@@ -311,6 +311,22 @@ func (e *Engine) Execute(p *sim.Plan, keepLog bool) (res *sim.RunResult) {
 				case "resolve-prefix":
 					id := pickBug()
 					_, _ = c.Bugs().ResolvePrefix(id[:10])
+				case "excerpt-prefix":
+					// what the web UI does for bug(prefix: …)
+					id := pickBug()
+					_, _ = c.Bugs().ResolveExcerptPrefix(id[:10])
+				case "ident-lookups":
+					for _, iid := range c.Identities().AllIds() {
+						_, _ = c.Identities().ResolveExcerptPrefix(string(iid)[:10])
+						_, _ = c.Identities().Resolve(iid)
+					}
+				case "create-metadata":
+					_, _ = c.Bugs().ResolveBugCreateMetadata("origin", "nowhere")
+				case "resolve-comment":
+					id := pickBug()
+					if ex, err := c.Bugs().ResolveExcerpt(entity.Id(id)); err == nil {
+						_, _, _ = c.Bugs().ResolveComment(string(ex.Id())[:10])
+					}
 				}
 			}
 		}
